@@ -98,10 +98,15 @@ def make_requests(server):
         def __init__(self):
             self.headers = {}
 
+        def _merged(self, headers):
+            h = dict(self.headers)          # session-level default headers are sent with every request
+            h.update(headers or {})
+            return h
+
         def get(self, url, headers=None, **kw):
-            return server.handle("GET", url, headers)
+            return server.handle("GET", url, self._merged(headers))
 
         def head(self, url, headers=None, **kw):
-            return server.handle("HEAD", url, headers)
+            return server.handle("HEAD", url, self._merged(headers))
     return types.SimpleNamespace(Session=Session, codes=real_requests.codes, exceptions=real_requests.exceptions,
                                  HTTPError=real_requests.HTTPError, RequestException=real_requests.RequestException)
